@@ -295,9 +295,14 @@ type cosimCounters struct {
 	unordered int64
 }
 
+// transp is the worker's transparency-sample logger (nil = off).
+var transp *transpLogger
+
 func compileFor(p *cosimProgram, optimize, lm bool) (comp.Options, comp.Result) {
 	o := cosimOptions(p.f, optimize, lm)
-	return o, comp.Compile(p.src, &o, cosimCompLim, nil)
+	res := comp.Compile(p.src, &o, cosimCompLim, nil)
+	transp.maybe(p.src, &o, &res)
+	return o, res
 }
 
 // cosimEval runs the oracle of prop on one program under the planned environments.
@@ -524,6 +529,8 @@ func CosimWorker(pm *Params) (*Stats, []*Failure) {
 	var fails []*Failure
 	cc := &cosimCounters{finish: map[string]int64{}, probes: map[string]int{}, digest: &Digest{}}
 	prop := pm.Property
+	transp = newTranspLogger(pm.TranspOut)
+	defer func() { transp.close(); transp = nil }()
 	for i := pm.From; i < pm.Count; i += pm.Stride {
 		runSeed := rng.RunSeed(pm.VerifSeed, prop, i)
 		gr := rng.New(rng.Sub(runSeed, "gen"))
